@@ -125,8 +125,9 @@ func (req *Request) Write(w io.Writer) (e error) {
 		}
 		item := req.Item
 		if req.Cmd == "cas" {
+			// cas <key> <flags> <exptime> <bytes> <cas unique>, the order Read expects
 			fmt.Fprintf(w, "%s %s %d %d %d %d%s\r\n", req.Cmd, req.Keys[0], item.Flag,
-				item.Exptime, item.Cas, len(item.Body), noreply)
+				item.Exptime, len(item.Body), item.Cas, noreply)
 		} else {
 			fmt.Fprintf(w, "%s %s %d %d %d%s\r\n", req.Cmd, req.Keys[0], item.Flag,
 				item.Exptime, len(item.Body), noreply)
